@@ -389,7 +389,12 @@ func (vx *Vaxis) PostEvent(ev Event) {
 // block if the queue is full. This method should only be used from a different
 // goroutine than the main thread.
 func (vx *Vaxis) PostEventBlocking(ev Event) {
-	vx.queue <- ev
+	select {
+	case vx.queue <- ev:
+	case <-vx.chQuit:
+		// Close has been called: the application no longer reads the
+		// queue, the event has nowhere to go
+	}
 }
 
 // SyncFunc queues a function to be called from the main thread. vaxis will call
@@ -423,7 +428,9 @@ func (vx *Vaxis) Close() {
 	vx.PostEvent(QuitEvent{})
 	vx.closed = true
 
-	defer close(vx.chQuit)
+	// release posters (the input goroutine among them) that are blocked on
+	// a full queue: stopping the parser needs the input goroutine to go on
+	close(vx.chQuit)
 
 	vx.Suspend()
 	vx.console.Close()
